@@ -215,7 +215,24 @@ func solveOne(i int, o *Obligation, cfg SolveCfg) {
 	// stage 1: fast single solver
 	r := runSolver(context.Background(), solvers[0], f, 2)
 	total := r.secs
+	triedInst := false
 	if r.verdict != "unsat" && r.verdict != "sat" {
+		// before the long race: the instance-only variant (quantified conjuncts of the path condition
+		// dropped, their ground instances kept) is usually decided in seconds. Weaker hypotheses, so only
+		// `unsat` counts; anything else falls through to the race on the full query.
+		if wtxt := o.VC.EmitOpt(o.Hyps, o.Goal, false, true); len(wtxt) != o.SMTSize-len("; "+o.Name+"\n") {
+			triedInst = true
+			fw := filepath.Join(cfg.OutDir, fmt.Sprintf("%04d.inst.smt2", i))
+			os.WriteFile(fw, []byte("; "+o.Name+" (instance-only variant)\n"+wtxt), 0o644)
+			r3, _ := race(fw, 10, solvers)
+			total += r3.secs
+			if r3.verdict == "unsat" {
+				o.TimeS = total
+				o.Status = "discharged"
+				o.Solver = r3.solver + "(instances)"
+				return
+			}
+		}
 		r2, _ := race(f, cfg.TimeoutS, solvers)
 		total += r2.secs
 		r = r2
@@ -261,7 +278,7 @@ func solveOne(i int, o *Obligation, cfg SolveCfg) {
 	default:
 		// last attempt: the instance-only variant (quantified conjuncts of the path condition
 		// dropped, their ground instances kept). Weaker hypotheses, so only unsat counts.
-		if wtxt := o.VC.EmitOpt(o.Hyps, o.Goal, false, true); len(wtxt) != o.SMTSize-len("; "+o.Name+"\n") {
+		if wtxt := o.VC.EmitOpt(o.Hyps, o.Goal, false, true); !triedInst && len(wtxt) != o.SMTSize-len("; "+o.Name+"\n") {
 			fw := filepath.Join(cfg.OutDir, fmt.Sprintf("%04d.inst.smt2", i))
 			os.WriteFile(fw, []byte("; "+o.Name+" (instance-only variant)\n"+wtxt), 0o644)
 			r3, _ := race(fw, cfg.TimeoutS, solvers)
